@@ -15,6 +15,7 @@ import (
 	"github.com/protobom/protobom/pkg/sbom"
 	"github.com/protobom/protobom/pkg/storage"
 	verifsim "github.com/protobom/protobom/pkg/verifsim"
+	"github.com/protobom/protobom/pkg/verifsim/simos"
 	"github.com/protobom/protobom/pkg/writer"
 
 	"verif/internal/core"
@@ -228,6 +229,17 @@ func genC18(verifSeed int64, tier string, idx int) *core.Scenario {
 				ops = append(ops, Op{K: "Obs", D: r.Intn(nw + nr)})
 			case k < 8 && nw > 0:
 				ops = append(ops, Op{K: "WWrite", D: r.Intn(nw)})
+			case k < 9 && nw > 0 && r.Intn(3) == 0:
+				sfx := []string{".spdx.json", ".cdx.json", ".json", ".spdx", ".SPDX.JSON", ".cdx.xml", "", ".protobom"}[r.Intn(8)]
+				if r.Intn(2) == 0 {
+					ops = append(ops, Op{K: "WWriteFile", D: r.Intn(nw), A: sfx})
+				} else {
+					f := ""
+					if r.Intn(2) == 0 {
+						f = c18RealFormats[r.Intn(3)]
+					}
+					ops = append(ops, Op{K: "WWriteFileOpt", D: r.Intn(nw), A: sfx, F: f, I: 1 + r.Intn(7)})
+				}
 			case k < 9 && nw > 0:
 				ops = append(ops, Op{K: "WWriteOpt", D: r.Intn(nw), F: c18RealFormats[r.Intn(3)], I: 1 + r.Intn(7)})
 			case nw+nr > 0 && r.Intn(3) == 0:
@@ -357,7 +369,7 @@ func (env *c18env) observe(t *c18task, in *c18inst, when string) string {
 		kind := "earlier-instance"
 		if when == "new" {
 			kind = "later-instance"
-		} else if when == "percall" {
+		} else if when == "percall" || when == "filewrite" {
 			kind = "per-call-sticky"
 		} else if !in.atNew {
 			kind = "later-instance"
@@ -400,9 +412,16 @@ func execC18(sc *core.Scenario) *core.Result {
 		env.tasks = append(env.tasks, &c18task{probes: map[string]int{}})
 	}
 	verifsim.ClockSet(baseClock)
+	// the file entry points write to a simulated disk
+	disk := simos.NewDisk(1000)
+	disk.Quiet = true
+	disk.PutDir("/c18", 0o755, 1000)
+	simos.Mount(disk)
+	defer simos.Mount(nil)
 	recs := mkRecs(sp.Tasks)
 	core.RaceMark()
 	sr := runTasks(sc.Sched, recs, env.mkOp)
+	simos.Mount(nil)
 	res.Sched = sr
 	res.Ops = countOps(recs)
 	abortViolations(res, sr, recs, "abort")
@@ -612,6 +631,49 @@ func (env *c18env) mkOp(rec *opRec) func() string {
 				return "fmt:" + declaredFormat(s.Bytes())
 			}
 			return "err"
+		}
+	case "WWriteFile", "WWriteFileOpt":
+		// the file entry points: whatever they make of the file name, the instance's configuration stays what
+		// its constructor made it, and a per-call format is used for that call
+		return func() string {
+			if len(t.writers) == 0 {
+				return "none"
+			}
+			in := t.writers[op.D%len(t.writers)]
+			before := env.observe(t, in, "later")
+			path := fmt.Sprintf("/c18/t%d_%d%s", rec.Task, rec.Index, op.A)
+			if in.model["Format"] == "" {
+				t.probes["file write on an instance without a format"]++
+			}
+			var err error
+			if op.K == "WWriteFile" {
+				err = in.w.WriteFile(env.doc, path)
+			} else {
+				err = in.w.WriteFileWithOptions(env.doc, path, &writer.Options{Format: formats.Format(op.F),
+					RenderOptions: &native.RenderOptions{Indent: op.I}, SerializeOptions: &native.SerializeOptions{}})
+				if err == nil && op.F != "" {
+					b, rerr := simos.ReadFile(path)
+					if got := declaredFormat(b); rerr != nil || got != op.F {
+						t.violate("leak:writer:Format:per-call", fmt.Sprintf("per-call format %s on writer #%d wrote a file declaring %s (read error %v)", op.F, in.call, got, rerr))
+					}
+				}
+			}
+			_ = err
+			if before != "ok" {
+				return before
+			}
+			if o := env.observe(t, in, "filewrite"); o != "ok" {
+				return o
+			}
+			// and the next plain write of the same instance still uses the instance's own format
+			if want := in.model["Format"]; want == "" {
+				s := &sink{}
+				if werr := in.w.WriteStream(env.doc, s); werr == nil {
+					t.violate("leak:writer:Format:write-used-other", fmt.Sprintf("writer #%d was built without a format; after a file write to %s its WriteStream succeeds and declares %s", in.call, path, declaredFormat(s.Bytes())))
+					return "fmt:" + declaredFormat(s.Bytes())
+				}
+			}
+			return "ok"
 		}
 	case "WWriteOpt":
 		return func() string {
